@@ -5,6 +5,9 @@ package dhcpv4
 import (
 	"net"
 	"time"
+
+	"github.com/insomniacslk/dhcp/iana"
+	"github.com/insomniacslk/dhcp/rfc1035label"
 )
 
 // C17: DHCPv4 typed accessors agree with the raw option bytes.
@@ -241,10 +244,10 @@ func VerifC17ParameterRequestList(n int) {
 // ---- strings ----
 
 const (
-	verifStrOpaque   = iota // octets are returned as they are (RFC 2132 §9.13: "a string of n octets")
-	verifStrTrimmed         // the accessor deletes trailing NULs, as RFC 2132 §2 requires of receivers
-	verifStrNVT             // RFC 2132 declares the option NVT ASCII: §2 applies (see below)
-	verifStrUndecided       // neither RFC nor documentation says whether trailing NULs are deleted
+	verifStrOpaque    = iota // octets are returned as they are (RFC 2132 §9.13: "a string of n octets")
+	verifStrTrimmed          // the accessor deletes trailing NULs, as RFC 2132 §2 requires of receivers
+	verifStrNVT              // RFC 2132 declares the option NVT ASCII: §2 applies (see below)
+	verifStrUndecided        // neither RFC nor documentation says whether trailing NULs are deleted
 )
 
 // verifC17String: the value of a string option is its octets (RFC 2132: minimum length 1; a
@@ -482,6 +485,398 @@ func VerifC17DomainSearch(n int) {
 					verifObserve("name", []byte(got.Labels[i]))
 				}
 			}
+		}
+	}
+	verifReach("end")
+}
+
+// =====================================================================================
+// Set/get: typed constructor -> UpdateOption -> accessor returns the value that was set,
+// over the constructor's domain (DESIGN.md §5 C17, "Precision note (set/get domain)").
+// =====================================================================================
+
+func verifNewPacket() *DHCPv4 {
+	return &DHCPv4{OpCode: OpcodeBootRequest, HWType: iana.HWTypeEthernet}
+}
+
+// VerifC17SetGetAddr: which = 0 broadcast address, 1 requested address, 2 server identifier;
+// form = 1 four-byte net.IP, 2 sixteen-byte IPv4-mapped net.IP.
+func VerifC17SetGetAddr(which, form int) {
+	ip, want := verifIP("ip", form)
+	p := verifNewPacket()
+	var got net.IP
+	switch which {
+	case 0:
+		p.UpdateOption(OptBroadcastAddress(ip))
+		got = p.BroadcastAddress()
+	case 1:
+		p.UpdateOption(OptRequestedIPAddress(ip))
+		got = p.RequestedIPAddress()
+	default:
+		p.UpdateOption(OptServerIdentifier(ip))
+		got = p.ServerIdentifier()
+	}
+	verifAssert(verifSame(got, want), "address-read-back")
+	verifObserve("addr", got)
+	verifReach("end")
+}
+
+// VerifC17SetGetAddrList: which = 0 routers, 1 NTP servers, 2 NetBIOS name servers, 3 DNS;
+// k = 1..3 addresses; forms = base-3 digits (1 or 2, see verifIP) of each address.
+func VerifC17SetGetAddrList(which, k, forms int) {
+	var ips []net.IP
+	var want [][]byte
+	for i := 0; i < k; i++ {
+		f := forms % 3
+		forms /= 3
+		if f == 0 {
+			f = 1
+		}
+		ip, w := verifIP("ip", f)
+		ips = append(ips, ip)
+		want = append(want, w)
+	}
+	p := verifNewPacket()
+	var got []net.IP
+	switch which {
+	case 0:
+		p.UpdateOption(OptRouter(ips...))
+		got = p.Router()
+	case 1:
+		p.UpdateOption(OptNTPServers(ips...))
+		got = p.NTPServers()
+	case 2:
+		p.UpdateOption(OptNetBIOSNameServers(ips...))
+		got = p.NetBIOSNameServers()
+	default:
+		p.UpdateOption(OptDNS(ips...))
+		got = p.DNS()
+	}
+	verifAssert(len(got) == k, "number-of-addresses-read-back")
+	if len(got) == k {
+		for i := range want {
+			verifAssert(verifSame(got[i], want[i]), "address-read-back")
+		}
+	}
+	verifReach("end")
+}
+
+// VerifC17SetGetDuration: which = 0 lease, 1 renewal (T1), 2 rebinding (T2), 3 IPv6-only wait.
+// Domain: whole seconds below 2^32.
+func VerifC17SetGetDuration(which int) {
+	d := time.Duration(verifU32("secs")) * time.Second
+	def := time.Duration(verifU64("def"))
+	p := verifNewPacket()
+	var got time.Duration
+	switch which {
+	case 0:
+		p.UpdateOption(OptIPAddressLeaseTime(d))
+		got = p.IPAddressLeaseTime(def)
+	case 1:
+		p.UpdateOption(OptRenewTimeValue(d))
+		got = p.IPAddressRenewalTime(def)
+	case 2:
+		p.UpdateOption(OptRebindingTimeValue(d))
+		got = p.IPAddressRebindingTime(def)
+	default:
+		p.UpdateOption(OptIPv6OnlyPreferred(d))
+		var present bool
+		got, present = p.IPv6OnlyPreferred()
+		verifAssert(present, "present")
+	}
+	verifAssert(got == d, "duration-read-back")
+	verifObserveInt("dur", int(got))
+	verifReach("end")
+}
+
+// VerifC17SetGetRoutes: up to three routes with mask widths w1..w3 (0..32; -1: no such route).
+// Domain: canonical routes — destination octets beyond ceil(width/8) are zero.
+func VerifC17SetGetRoutes(w1, w2, w3 int) {
+	var routes []*Route
+	for _, w := range []int{w1, w2, w3} {
+		if w < 0 {
+			continue
+		}
+		dst := verifBytes("dst", 4)
+		for k := (w + 7) / 8; k < 4; k++ {
+			verifAssume(dst[k] == 0)
+		}
+		gw := verifBytes("gw", 4)
+		routes = append(routes, &Route{
+			Dest:   &net.IPNet{IP: net.IP(dst), Mask: net.CIDRMask(w, 32)},
+			Router: net.IP(gw),
+		})
+	}
+	p := verifNewPacket()
+	p.UpdateOption(OptClasslessStaticRoute(routes...))
+	got := p.ClasslessStaticRoute()
+	verifAssert(len(got) == len(routes), "number-of-routes-read-back")
+	if len(got) == len(routes) {
+		for i, r := range routes {
+			g := got[i]
+			shape := g != nil && g.Dest != nil
+			verifAssert(shape, "route-read-back")
+			if !shape {
+				continue
+			}
+			verifAssert(verifSame(g.Dest.IP, r.Dest.IP), "destination-read-back")
+			verifAssert(verifSame(g.Dest.Mask, r.Dest.Mask), "mask-read-back")
+			verifAssert(verifSame(g.Router, r.Router), "router-read-back")
+		}
+	}
+	verifReach("end")
+}
+
+// VerifC17SetGetParameterRequestList: k >= 1 symbolic codes.
+func VerifC17SetGetParameterRequestList(k int) {
+	raw := verifBytes("code", k)
+	var codes []OptionCode
+	for _, c := range raw {
+		codes = append(codes, GenericOptionCode(c))
+	}
+	p := verifNewPacket()
+	p.UpdateOption(OptParameterRequestList(codes...))
+	got := p.ParameterRequestList()
+	verifAssert(len(got) == k, "number-of-codes-read-back")
+	if len(got) == k {
+		var d byte
+		for i := range raw {
+			d |= got[i].Code() ^ raw[i]
+		}
+		verifAssert(d == 0, "codes-read-back")
+	}
+	verifReach("end")
+}
+
+// VerifC17SetGetUserClass: the non-RFC form OptUserClass(string of n bytes).  The documented
+// dual format is inherently ambiguous for strings that happen to be a well-formed RFC 3004
+// list: for those the accessor returns the list reading (asserted as such); for every other
+// string it returns the string that was set.
+func VerifC17SetGetUserClass(n int) {
+	raw := verifBytes("uc", n)
+	p := verifNewPacket()
+	p.UpdateOption(OptUserClass(string(raw)))
+	got := p.UserClass()
+	ucs, isList := refUserClasses(raw)
+	if isList {
+		verifAssert(len(got) == len(ucs), "ambiguous-string-reads-as-rfc3004-list")
+		verifReach("ambiguous")
+	} else {
+		verifAssert(len(got) == 1, "one-class-read-back")
+		if len(got) == 1 {
+			verifAssert(verifSameStr(got[0], string(raw)), "class-read-back")
+		}
+	}
+	verifReach("end")
+}
+
+// VerifC17SetGetRFC3004UserClass: one to three classes of lengths l1..l3 (>= 1; -1: none).
+func VerifC17SetGetRFC3004UserClass(l1, l2, l3 int) {
+	var ucs []string
+	for _, l := range []int{l1, l2, l3} {
+		if l >= 1 {
+			ucs = append(ucs, string(verifBytes("uc", l)))
+		}
+	}
+	p := verifNewPacket()
+	p.UpdateOption(OptRFC3004UserClass(ucs))
+	got := p.UserClass()
+	verifAssert(len(got) == len(ucs), "number-of-classes-read-back")
+	if len(got) == len(ucs) {
+		for i := range ucs {
+			verifAssert(verifSameStr(got[i], ucs[i]), "class-read-back")
+		}
+	}
+	verifReach("end")
+}
+
+// VerifC17SetGetRelayAgentInfo: sub-options with pairwise distinct symbolic codes in 1..254 and
+// symbolic values of lengths l1..l3 (-1: none).
+func VerifC17SetGetRelayAgentInfo(l1, l2, l3 int) {
+	codes, vals := verifOptionSet(0, l1, l2, l3)
+	var subs []Option
+	for i := range codes {
+		subs = append(subs, OptGeneric(raiSubOptionCode(codes[i]), vals[i]))
+	}
+	p := verifNewPacket()
+	p.UpdateOption(OptRelayAgentInfo(subs...))
+	got := p.RelayAgentInfo()
+	if len(codes) == 0 {
+		// no sub-option: the option value is empty, which the accessor reads as absent or empty
+		verifAssert(got == nil || len(got.Options) == 0, "no-suboptions-read-back")
+		verifReach("end")
+		return
+	}
+	verifAssert(got != nil, "present")
+	if got != nil {
+		verifAssert(len(got.Options) == len(codes), "number-of-suboptions-read-back")
+		for i := range codes {
+			v, has := got.Options[codes[i]]
+			verifAssert(has, "suboption-read-back")
+			verifAssert(verifSame(v, vals[i]), "suboption-value-read-back")
+			verifAssert(verifSame(got.Get(raiSubOptionCode(codes[i])), vals[i]), "suboption-value-read-back")
+		}
+	}
+	verifReach("end")
+}
+
+func VerifC17SetGetSubnetMask() {
+	m := verifBytes("mask", 4)
+	p := verifNewPacket()
+	p.UpdateOption(OptSubnetMask(net.IPMask(m)))
+	got := p.SubnetMask()
+	verifAssert(verifSame(got, m), "mask-read-back")
+	verifReach("end")
+}
+
+// verifDNSName builds one name from a shape: decimal digit pairs, least significant first, are
+// label lengths (e.g. 30201 = labels of 1, 2 and 3 bytes).  Label bytes are not '.', the
+// separator of the library's textual form.
+func verifDNSName(shape int) string {
+	var j []byte
+	first := true
+	for d := shape; d > 0; d /= 100 {
+		lab := verifBytes("lab", d%100)
+		for _, c := range lab {
+			verifAssume(c != '.')
+		}
+		if !first {
+			j = append(j, '.')
+		}
+		first = false
+		j = append(j, lab...)
+	}
+	return string(j)
+}
+
+// VerifC17SetGetDomainSearch: one to three names (shape -1: none; see verifDNSName).
+func VerifC17SetGetDomainSearch(s1, s2, s3 int) {
+	var names []string
+	for _, s := range []int{s1, s2, s3} {
+		if s > 0 {
+			names = append(names, verifDNSName(s))
+		}
+	}
+	p := verifNewPacket()
+	p.UpdateOption(OptDomainSearch(&rfc1035label.Labels{Labels: names}))
+	got := p.DomainSearch()
+	if len(names) == 0 {
+		// outside the constructor's domain (list options carry at least one element): the value
+		// is empty and reads as absent or empty
+		verifAssert(got == nil || len(got.Labels) == 0, "no-names-read-back")
+		verifReach("end")
+		return
+	}
+	verifAssert(got != nil, "present")
+	if got != nil {
+		verifAssert(len(got.Labels) == len(names), "number-of-names-read-back")
+		if len(got.Labels) == len(names) {
+			for i := range names {
+				verifAssert(verifSameStr(got.Labels[i], names[i]), "name-read-back")
+			}
+		}
+	}
+	verifReach("end")
+}
+
+// VerifC17SetGetClientArch: k >= 1 symbolic architecture types.
+func VerifC17SetGetClientArch(k int) {
+	var archs []iana.Arch
+	for i := 0; i < k; i++ {
+		archs = append(archs, iana.Arch(verifU16("arch")))
+	}
+	p := verifNewPacket()
+	p.UpdateOption(OptClientArch(archs...))
+	got := p.ClientArch()
+	verifAssert(len(got) == k, "number-of-types-read-back")
+	if len(got) == k {
+		for i := range archs {
+			verifAssert(got[i] == archs[i], "type-read-back")
+		}
+	}
+	verifReach("end")
+}
+
+// VerifC17SetGetScalar: which = 0 maximum message size, 1 message type, 2 auto-configure.
+func VerifC17SetGetScalar(which int) {
+	p := verifNewPacket()
+	switch which {
+	case 0:
+		v := verifU16("size")
+		p.UpdateOption(OptMaxMessageSize(v))
+		got, err := p.MaxMessageSize()
+		verifAssert(err == nil, "present")
+		verifAssert(got == v, "size-read-back")
+	case 1:
+		v := MessageType(verifU8("type"))
+		p.UpdateOption(OptMessageType(v))
+		verifAssert(p.MessageType() == v, "type-read-back")
+	default:
+		v := AutoConfiguration(verifU8("autoconf"))
+		p.UpdateOption(OptAutoConfigure(v))
+		got, present := p.AutoConfigure()
+		verifAssert(present, "present")
+		verifAssert(got == v, "autoconf-read-back")
+	}
+	verifReach("end")
+}
+
+// VerifC17SetGetString: which = 0 domain name, 1 host name, 2 root path, 3 boot file name,
+// 4 TFTP server name, 5 class identifier, 6 message; n bytes.  Domain: strings that do not end
+// in NUL (RFC 2132 §2: senders SHOULD NOT add one and receivers delete it, so such a string has
+// no wire representation of its own).
+func VerifC17SetGetString(which, n int) {
+	raw := verifBytes("str", n)
+	if n > 0 {
+		verifAssume(raw[n-1] != 0)
+	}
+	s := string(raw)
+	p := verifNewPacket()
+	var got string
+	switch which {
+	case 0:
+		p.UpdateOption(OptDomainName(s))
+		got = p.DomainName()
+	case 1:
+		p.UpdateOption(OptHostName(s))
+		got = p.HostName()
+	case 2:
+		p.UpdateOption(OptRootPath(s))
+		got = p.RootPath()
+	case 3:
+		p.UpdateOption(OptBootFileName(s))
+		got = p.BootFileNameOption()
+	case 4:
+		p.UpdateOption(OptTFTPServerName(s))
+		got = p.TFTPServerName()
+	case 5:
+		p.UpdateOption(OptClassIdentifier(s))
+		got = p.ClassIdentifier()
+	default:
+		p.UpdateOption(OptMessage(s))
+		got = p.Message()
+	}
+	verifAssert(verifSameStr(got, s), "string-read-back")
+	verifReach("end")
+}
+
+// VerifC17SetGetVIVC: up to two vendors with symbolic 32-bit enterprise numbers and
+// vendor-class-data of l1, l2 bytes (-1: none).
+func VerifC17SetGetVIVC(l1, l2 int) {
+	var ids []VIVCIdentifier
+	for _, l := range []int{l1, l2} {
+		if l >= 0 {
+			ids = append(ids, VIVCIdentifier{EntID: iana.EnterpriseID(verifU32("ent")), Data: verifBytes("data", l)})
+		}
+	}
+	p := verifNewPacket()
+	p.UpdateOption(OptVIVC(ids...))
+	got := p.VIVC()
+	verifAssert(len(got) == len(ids), "number-of-vendors-read-back")
+	if len(got) == len(ids) {
+		for i := range ids {
+			verifAssert(got[i].EntID == ids[i].EntID, "enterprise-number-read-back")
+			verifAssert(verifSame(got[i].Data, ids[i].Data), "vendor-class-data-read-back")
 		}
 	}
 	verifReach("end")
